@@ -47,8 +47,12 @@ Definition encode_asis (P : enc_params) (mantissa exponent : Z) : Z * comparison
         let shift := exponent + (BIAS P - 1) + MB P in
         if 0 <=? shift then (sbit + (man * 2 ^ shift) mod 2 ^ W P, 0)
         else
-          let shifted := man * 2 ^ (W P + shift) in
-          (sbit + shifted / 2 ^ W P, round_bits_of shifted (W P - 1))
+          (* 1 <= s <= W: lowest kept bit, half bit, sticky of everything below *)
+          let s := - shift in
+          let kept := man / 2 ^ s in
+          let half := (man / 2 ^ (s - 1)) mod 2 in
+          let sticky := if man mod 2 ^ (s - 1) =? 0 then 0 else 1 in
+          (sbit + kept, (kept mod 2) * 4 + half * 2 + sticky)
       else
         let man' := if man =? 1 then 0 else (man * 2 ^ (zeros + 1)) mod 2 ^ W P in
         let e' := (exponent + BIAS P + W P) - zeros - 1 in
@@ -171,6 +175,25 @@ Definition rat_to_float (P : enc_params) (N D : Z) : Z * comparison :=
     let man := Z.lor man (if r =? 0 then 0 else 1) in
     encode_asis P (if neg then - man else man) shift.
 
+(** Repr::to_f32_fast / to_f64_fast: 2K-bit numerator by K-bit denominator (K = 24 / 53), both
+    truncated, quotient rounded to nearest even, then encode (a second rounding) *)
+Definition rat_to_float_fast (P : enc_params) (N D : Z) : Z :=
+  if N =? 0 then 0 else
+  let neg := N <? 0 in
+  let K := MB P + 1 in
+  let num_shift := blen (Z.abs N) - 2 * K in
+  let numK := if 0 <=? num_shift then Z.abs N / 2 ^ num_shift else Z.abs N * 2 ^ (- num_shift) in
+  let den_shift := blen D - K in
+  let denK := if 0 <=? den_shift then D / 2 ^ den_shift else D * 2 ^ (- den_shift) in
+  let exponent := num_shift - den_shift in
+  if exponent >=? TOP_MAX P then (if neg then 2 ^ (W P - 1) else 0) + inf_bits P
+  else if exponent <? (- (BIAS P - 1) - MB P) - (K + 1) then (if neg then 2 ^ (W P - 1) else 0)
+  else
+    let man := numK / denK in
+    let r := numK mod denK in
+    let man := if (2 * r >? denK) || ((2 * r =? denK) && Z.odd man) then man + 1 else man in
+    fst (encode_asis P (if neg then - man else man) exponent).
+
 (** ---- float/src/convert.rs ---- *)
 Inductive frounded := FR (bits : Z) (flag : option rounding).
 
@@ -198,7 +221,10 @@ Definition fbig2_to_float (P : enc_params) (m : mode) (s e : Z) : frounded :=
   let '(s, e) := normalize 2 s e in
   match repr_round 2 (MB P + 1) m s e with
   | AExact s' e' => into_float_internal P s' e'
-  | AInexact s' e' r => fr_and_then (Some r) (into_float_internal P s' e')
+  | AInexact s' e' r =>
+      (* repr_round builds its result with Repr::new, which strips trailing zeros (a carry) *)
+      let '(s'', e'') := normalize 2 s' e' in
+      fr_and_then (Some r) (into_float_internal P s'' e'')
   end.
 
 (** into_f32_internal / into_f64_internal with their debug assertion (the harness profile keeps
@@ -210,6 +236,7 @@ Definition and_then_checked (P : enc_params) (a : approx) : result frounded :=
   match a with
   | AExact s e => into_float_checked P s e
   | AInexact s e r =>
+      let '(s, e) := normalize 2 s e in
       match into_float_checked P s e with Ok fr => Ok (fr_and_then (Some r) fr) | o => o end
   end.
 
@@ -224,9 +251,17 @@ Definition convert_base_to2 (B p : Z) (m : mode) (s e : Z) : result approx :=
   else
     let '(s1, e1) := normalize 2 s 0 in
     let '(s2, e2) := normalize 2 (B ^ (- e)) 0 in
-    (* debug assertion of repr_div: the dividend must not be longer than precision + divisor *)
-    if dlen 2 s1 >? p + dlen 2 s2 then Err 1 else
-    repr_div 2 p m s1 e1 s2 e2.
+    if dlen 2 s1 <=? p + dlen 2 s2 then repr_div 2 p m s1 e1 s2 e2
+    else
+      (* a dividend too long for repr_div: divide exactly, round the quotient once *)
+      let q := Z.quot s1 s2 in
+      let r := Z.rem s1 s2 in
+      let shift := dlen 2 q - p in
+      let exponent := e1 - e2 + shift in
+      let '(hi, lo) := split_digits 2 q shift in
+      let rem := lo * s2 + r in
+      if rem =? 0 then Ok (AExact hi exponent)
+      else let a := round_ratio m hi rem (s2 * 2 ^ shift) in Ok (AInexact (hi + adj a) exponent a).
 
 (** FBig<R,B>::to_f32 (mode R) / to_f64 (HalfEven) and Repr<B>::to_f32/to_f64, finite, any base *)
 Definition fbig_to_float (P : enc_params) (B : Z) (m : mode) (s e : Z) : result frounded :=
